@@ -239,7 +239,7 @@ impl Prop for C19 {
     }
     fn assumptions(&self) -> Vec<String> {
         vec![
-            "the reference model reads the protocol from the doc comments of SolOut and the property text; ControlFlag::XOut is not exercised".into(),
+            "the reference model reads the protocol from the doc comments of SolOut and the property text; ControlFlag::XOut (undocumented) is part of the simulated callback's schedule, but the model only demands that every interpolant handed out is valid on its step - not when an on-demand interpolant is due".into(),
             "interpolant end-point agreement is judged with tau_I (DESIGN §5); bitwise twin comparisons elsewhere".into(),
             "BDF identity modification is judged by the protocol clauses only (a history restart is documented behaviour)".into(),
         ]
